@@ -112,19 +112,41 @@ def tok_upd(upd):
     return (f"sub {len(dofs)} " + " ".join(f"{p} {tok_spec(s)}" for p, s in dofs) + f" {len(ps)} {fmts(ps)}").strip()
 
 
-class Case:
-    """models + optional update + signal (pixels with label index)"""
+NP_OF = {"f64": np.float64, "f32": np.float32, "u8": np.uint8, "u16": np.uint16, "i64": np.int64}
+TOK_OF_NP = {"float64": "f64", "float32": "f32", "uint8": "u8", "uint16": "u16", "int64": "i64", "bool": "bool"}
+INT_DTYPES = ("u8", "u16", "i64")
 
-    def __init__(self, mode, models, upd, pix, label_values, shape):
+
+def dtok(arr):
+    return TOK_OF_NP.get(str(np.asarray(arr).dtype), "?" + str(np.asarray(arr).dtype))
+
+
+def gen_value(rng, dt):
+    """a signal value representable in the element type (integers for integer images, small dyadics otherwise)"""
+    if dt == "u8":
+        return Fraction(rng.choice([rng.randint(0, 255), rng.randint(0, 12), 201, 255]))
+    if dt == "u16":
+        return Fraction(rng.choice([rng.randint(0, 1000), rng.randint(0, 12), 65535]))
+    if dt == "i64":
+        return Fraction(rng.randint(-40, 300))
+    return dy(rng, -32, 32, 16)
+
+
+class Case:
+    """models + optional update + signal (pixels with the index of their label; the request line carries label VALUES and the
+    element type, the response the element type of the result and its values)"""
+
+    def __init__(self, mode, models, upd, pix, label_values, shape, dtype="f64"):
         self.mode, self.models, self.upd, self.pix, self.label_values, self.shape = mode, models, upd, pix, label_values, shape
+        self.dtype = dtype
 
     def line(self):
-        return (f"run {self.mode} {len(self.models)} " + " ".join(tok_model(m) for m in self.models) + " | " + tok_upd(self.upd)
-                + f" | {len(self.pix)} " + " ".join(f"{l} {fmt(v)}" for l, v in self.pix))
+        return (f"run {self.mode} {self.dtype} {len(self.models)} " + " ".join(tok_model(m) for m in self.models) + " | " + tok_upd(self.upd)
+                + f" | {len(self.pix)} " + " ".join(f"{self.label_values[l] if l < len(self.label_values) else l} {fmt(v)}" for l, v in self.pix))
 
     def arrays(self):
         lab = np.array([self.label_values[l] for l, _ in self.pix], dtype=np.int64).reshape(self.shape)
-        sig = np.array([float(v) for _, v in self.pix], dtype=float).reshape(self.shape)
+        sig = np.array([float(v) for _, v in self.pix], dtype=float).reshape(self.shape).astype(NP_OF[self.dtype])
         return lab, sig
 
     def run_impl(self, d):
@@ -147,7 +169,7 @@ class Case:
         out = np.asarray(out)
         if out.shape != sig.shape:
             return "!shape"
-        return fmts(out.ravel())
+        return dtok(out) + " " + fmts(out.ravel())
 
 
 def gen_models(rng, n, L, near_one=True):
@@ -188,14 +210,16 @@ def gen_case(rng, malformed=False):
     labs = list(range(L)) + [rng.randrange(L) for _ in range(npx - L)]
     rng.shuffle(labs)
     label_values = sorted(rng.sample(range(0, 40), L))
-    pix = [(l, dy(rng, -32, 32, 16)) for l in labs]
+    dtype = rng.choice(["f64", "f64", "f32", "u8", "u16", "i64"])
+    pix = [(l, gen_value(rng, dtype)) for l in labs]
     mode = rng.choice(["comb", "comb", "comb", "single"])
-    models = gen_models(rng, 1 if mode == "single" else rng.randint(1, 4), L)
+    # float32 has 24 mantissa bits: at most two models in a row keep every intermediate value exact
+    models = gen_models(rng, 1 if mode == "single" else rng.randint(1, 2 if dtype == "f32" else 4), L)
     if not any(m[0] == "het" for m in models) and rng.random() < 0.6:
         # label-free models take signals of any dimensionality: 1-D pixel lists and 3-D arrays
         shape = rng.choice([(rng.randint(1, 7),), (rng.randint(1, 3), rng.randint(1, 3), rng.randint(1, 3))])
         npx = int(np.prod(shape))
-        pix = [(0, dy(rng, -32, 32, 16)) for _ in range(npx)]
+        pix = [(0, gen_value(rng, dtype)) for _ in range(npx)]
         label_values = [0]
     choice = rng.random()
     upd = None
@@ -232,7 +256,7 @@ def gen_case(rng, malformed=False):
         if malformed and rng.random() < 0.5:
             need, extra = max(0, need - 1), 0
         upd = ("sub", entries, [dz(rng) for _ in range(need + extra)])
-    return Case(mode, models, upd, pix, label_values, shape)
+    return Case(mode, models, upd, pix, label_values, shape, dtype)
 
 
 # ---------------------------------------------------------------------------
@@ -248,12 +272,13 @@ def gen_thr(rng, d):
     labs = list(range(L)) + [rng.randrange(L) for _ in range(npx - L)]
     rng.shuffle(labs)
     label_values = sorted(rng.sample(range(0, 40), L))
-    vals = [dy(rng, -8, 24, 16) for _ in range(npx)]
+    sdt = rng.choice(["f64", "f64", "f32", "u8", "i64"])
+    vals = [dy(rng, -8, 24, 16) if sdt in ("f64", "f32") else Fraction(rng.randint(0, 3)) for _ in range(npx)]
     mask = None if rng.random() < 0.4 else [rng.random() < 0.6 for _ in range(npx)]
     het = rng.random() < 0.6
     as_float = rng.random() < 0.4  # return_float may change the dtype, never the selection - with or without a mask
     lab = np.array([label_values[l] for l in labs]).reshape(shape)
-    sig = np.array([float(v) for v in vals]).reshape(shape)
+    sig = np.array([float(v) for v in vals]).reshape(shape).astype(NP_OF[sdt])
     if het:
         lo = [dy(rng, 0, 8, 16) for _ in range(L)]
         # include bounds equal to pixel values so strictness is exercised
@@ -261,15 +286,15 @@ def gen_thr(rng, d):
             if rng.random() < 0.4:
                 lo[i] = rng.choice(vals)
         hi = None if rng.random() < 0.3 else [rng.choice([l + dy(rng, 0, 16, 16), rng.choice(vals)]) for l in lo]
-        line = f"thr het {L} {fmts(lo)} " + ("none" if hi is None else "some " + fmts(hi))
+        line = f"thr het {L} {fmts(lo)} " + ("none" if hi is None else "some " + fmts(hi)) + (" 1" if as_float else " 0")
         model = call(d.StaticThresholdModel, [float(x) for x in lo], None if hi is None else [float(x) for x in hi], lab, as_float)
     else:
         lo = rng.choice([dy(rng, 0, 8, 16), rng.choice(vals)])
         hi = rng.choice([None, lo + dy(rng, 0, 16, 16), rng.choice(vals)])
-        line = f"thr hom {fmt(lo)} {'none' if hi is None else fmt(hi)}"
+        line = f"thr hom {fmt(lo)} {'none' if hi is None else fmt(hi)} {1 if as_float else 0}"
         model = call(d.StaticThresholdModel, float(lo), None if hi is None else float(hi), None, as_float)
     line += " | " + ("nomask" if mask is None else "mask " + " ".join("1" if b else "0" for b in mask))
-    line += f" | {npx} " + " ".join(f"{l} {fmt(v)}" for l, v in zip(labs, vals))
+    line += f" | {npx} " + " ".join(f"{label_values[l]} {fmt(v)}" for l, v in zip(labs, vals))
     if isinstance(model, Raised):
         return line, repr(model), dict(lo=lo, hi=hi, het=het)
     out = call(model, sig) if mask is None else call(model, sig, np.array(mask).reshape(shape))
@@ -280,7 +305,7 @@ def gen_thr(rng, d):
         if out.dtype.kind not in "fbiu" or not np.all((out == 0) | (out == 1)):
             impl = "!values"
         else:
-            impl = "!shape" if out.shape != shape else " ".join("1" if b else "0" for b in out.ravel())
+            impl = "!shape" if out.shape != shape else dtok(out) + " " + " ".join("1" if b else "0" for b in out.ravel())
     # the statement itself, evaluated directly
     want = []
     for i, (l, v) in enumerate(zip(labs, vals)):
@@ -450,9 +475,10 @@ def oracle_models(ctx, d):
     rng = ctx.rng
     probe_vals = [Fraction(k, 4) for k in range(-12, 13)]
 
-    def mk_case(models, upd, L):
+    def mk_case(models, upd, L, dtype="f64"):
         labs = [i % L for i in range(len(probe_vals))]
-        return Case("comb", models, upd, list(zip(labs, probe_vals)), [5 * (i + 1) for i in range(L)], (5, 5))
+        vals = probe_vals if dtype in ("f64", "f32") else [Fraction(v) for v in (list(range(0, 22)) + [100, 201, 255])]
+        return Case("comb", models, upd, list(zip(labs, vals)), [5 * (i + 1) for i in range(L)], (5, 5), dtype)
 
     # (a) clip bounds / idempotence / Image in -> Image out, argument untouched
     for _ in range(ctx.pick(20, 200)):
@@ -488,10 +514,13 @@ def oracle_models(ctx, d):
     for _ in range(ctx.pick(30, 300)):
         L = rng.randint(1, 5)
         models = gen_models(rng, rng.randint(1, 4), L, near_one=False)
-        c = mk_case(models, None, L)
+        cdt = rng.choice(["f64", "f64", "f32", "u8", "u16", "i64"])
+        if cdt == "f32":
+            models = models[:2]  # exact in 24 mantissa bits
+        c = mk_case(models, None, L, cdt)
         lab, sig = c.arrays()
         objs = [call(build, d, m, lab) for m in models]
-        ctx.count(("compose", tuple(map(str, models))))
+        ctx.count(("compose", c.dtype, tuple(map(str, models))))
         if any(isinstance(o, Raised) for o in objs):
             ctx.fail("C14:model-constructor:raises", "a model cannot be constructed", {"models": [tok_model(m) for m in models]})
             continue
@@ -510,7 +539,34 @@ def oracle_models(ctx, d):
             ctx.fail("C14:CombinedModel.__call__:composition", "combined model differs from applying its parts in order", {"line": c.line()})
         want = np.array([float(v) for v in ref_apply(models, c.pix)]).reshape(c.shape)
         if not np.array_equal(np.asarray(seq), want):
-            ctx.fail("C14:models:defining-formula", "model output differs from its defining formula (label-wise = homogeneous per label)", {"line": c.line()})
+            ctx.fail(f"C14:models:defining-formula(dtype={c.dtype})", "model output differs from its defining formula (label-wise = homogeneous per label)",
+                     {"line": c.line(), "observed": np.asarray(seq).ravel().tolist()[:8], "required": want.ravel().tolist()[:8]})
+
+    # (e-dtype) label-wise linear model vs the real homogeneous LinearModel of each label, region by region, for every element type
+    for dt in ("u8", "u16", "i64", "f32", "f64"):
+        for _ in range(ctx.pick(4, 30)):
+            L = rng.randint(1, 4)
+            sc, of = [dy(rng) for _ in range(L)], [dy(rng) for _ in range(L)]
+            c = mk_case([("het", L, sc, of)], None, L, dt)
+            lab, sig = c.arrays()
+            ctx.count(("het-vs-hom", dt, tuple(sc), tuple(of)))
+            out = call(lambda: d.HeterogeneousLinearModel(lab, scaling=[float(x) for x in sc], offset=[float(x) for x in of])(sig.copy()))
+            bad = None
+            if isinstance(out, Raised):
+                bad = {"observed": repr(out)}
+            else:
+                for li, l in enumerate(np.unique(lab)):
+                    hom = d.LinearModel(scaling=float(sc[li]), offset=float(of[li]))(sig.copy())
+                    reg = lab == l
+                    if not np.array_equal(np.asarray(out)[reg], hom[reg]):
+                        k = np.argwhere(reg & (np.asarray(out) != hom))[0]
+                        bad = {"label": int(l), "pixel": k.tolist(), "signal_value": float(sig[tuple(k)]), "observed": float(np.asarray(out)[tuple(k)]),
+                               "required": float(hom[tuple(k)]), "result_dtype": str(np.asarray(out).dtype), "homogeneous_dtype": str(hom.dtype)}
+                        break
+            if bad:
+                ctx.fail(f"C14:HeterogeneousLinearModel.__call__(dtype={dt}):differs-from-homogeneous",
+                         "on a labelled region the label-wise model differs from LinearModel(scaling[l], offset[l]) (result truncated / wrapped into the signal's element type)",
+                         {"line": c.line(), **bad})
 
     # (e') the generic label-wise wrapper HeterogeneousModel(model, label image): per-label copies, region by region
     for _ in range(ctx.pick(10, 100)):
@@ -588,7 +644,8 @@ def oracle_models(ctx, d):
 def oracle_threshold(ctx, d, thr_cases):
     for line, impl, info in thr_cases:
         ctx.count(("thr", line))
-        if "want" in info and impl != info["want"]:
+        sel = impl if impl.startswith("!") else impl.split(" ", 1)[1] if " " in impl else ""
+        if "want" in info and sel != info["want"]:
             opt = ",return_float" if info.get("return_float") else ""
             opt += ",mask" if info.get("masked") else ""
             ctx.fail(f"C14:StaticThresholdModel.__call__({'het' if info['het'] else 'hom'}{opt})", "result is not `strictly between the bounds, inside the mask`",
@@ -1023,10 +1080,11 @@ def wrapper_resize_boundary(ctx, d):
         labs = list(range(L)) + [rng.randrange(L) for _ in range(npx - L)]
         rng.shuffle(labs)
         label_values = sorted(rng.sample(range(0, 40), L))
-        pix = [(l, dy(rng, -32, 32, 16)) for l in labs]
-        lines.append(f"wrap {L} " + " ".join(tok_model(m) for m in models) + f" | {npx} " + " ".join(f"{l} {fmt(v)}" for l, v in pix))
+        wdt = rng.choice(["f64", "f32", "u8", "i64"])
+        pix = [(l, gen_value(rng, wdt)) for l in labs]
+        lines.append(f"wrap {L} " + " ".join(tok_model(m) for m in models) + f" | {npx} " + " ".join(f"{label_values[l]} {fmt(v)}" for l, v in pix))
         lab = np.array([label_values[l] for l in labs]).reshape(shape)
-        sig = np.array([float(v) for _, v in pix]).reshape(shape)
+        sig = np.array([float(v) for _, v in pix]).reshape(shape).astype(NP_OF[wdt])
         hm = call(d.HeterogeneousModel, d.LinearModel(), d.Image(lab, dimensions=[1.0, 1.0], scalar=True))
         if isinstance(hm, Raised):
             impl.append(repr(hm))
@@ -1034,7 +1092,7 @@ def wrapper_resize_boundary(ctx, d):
         for i, l in enumerate(np.unique(lab)):
             hm.obj[l] = build(d, models[i], lab)
         out = call(hm, sig.copy())
-        impl.append(repr(out) if isinstance(out, Raised) else ("!shape" if np.asarray(out).shape != shape else fmts(np.asarray(out).ravel())))
+        impl.append(repr(out) if isinstance(out, Raised) else ("!shape" if np.asarray(out).shape != shape else dtok(out) + " " + fmts(np.asarray(out).ravel())))
     ctx.correspond("heterogeneous-wrapper", lines, impl)
 
     # (2) label maps of another shape: the label map in force is read off the output (scaling = position of the label + 2, signal = 1)
@@ -1278,16 +1336,19 @@ def replay(data):
         return 1 if bad else 0
     if "line" in rp and rp["line"].startswith("run "):
         toks = rp["line"].split()
-        mode, n = toks[1], int(toks[2])
-        models, rest = _parse_models(toks[3:])
+        mode, dt = toks[1], toks[2]
+        models, rest = _parse_models(toks[4:])
         bar2 = len(rest) - 1 - rest[::-1].index("|")
         pt = rest[bar2 + 2:]
         pix = [(int(pt[i]), Fraction(pt[i + 1])) for i in range(0, len(pt), 2)]
         L = max([m[1] for m in models if m[0] == "het"] + [max(l for l, _ in pix) + 1])
         side = int(round(len(pix) ** 0.5))
         shape = (side, side) if side * side == len(pix) else (1, len(pix))
-        c = Case(mode, models, None, pix, [5 * (i + 1) for i in range(L)], shape)
+        vals_ = sorted({l for l, _ in pix})
+        pix = [(vals_.index(l), v) for l, v in pix]
+        c = Case(mode, models, None, pix, vals_, shape, dt)
         got = c.run_impl(d)
+        got = got if got.startswith("!") else got.split(" ", 1)[1]
         want = fmts(ref_apply(models, pix))
         print(json.dumps({"line": rp["line"], "note": "models applied without the update part", "observed": got, "required": want,
                           "still_failing": got != want}, indent=1))
@@ -1319,9 +1380,10 @@ def run(ctx):
         # is the *property* violated at this case? evaluate the defining formulas directly
         if c.upd is None and not impl[i].startswith("!"):
             want = fmts(ref_apply(c.models, c.pix))
+            got_vals = impl[i].split(" ", 1)[1] if " " in impl[i] else ""
             # the isclose shortcut of ScalingModel is an implementation detail: scaling * x is as right as x
-            if want != impl[i] and fmts(ref_apply(c.models, c.pix, shortcut=False)) != impl[i]:
-                ctx.fail("C14:models:defining-formula", "model output differs from its defining formula", {"line": lines[i], "observed": impl[i], "required": want})
+            if want != got_vals and fmts(ref_apply(c.models, c.pix, shortcut=False)) != got_vals:
+                ctx.fail(f"C14:models:defining-formula(dtype={c.dtype})", "model output differs from its defining formula", {"line": lines[i], "observed": impl[i], "required": want})
     thr = [gen_thr(ctx.rng, d) for _ in range(ctx.pick(120, 1200))]
     ctx.correspond("static-threshold", [t[0] for t in thr], [t[1] for t in thr])
     pl = [f"poly {k}" for k in range(POLY_MAX + 1)]
